@@ -13,7 +13,10 @@ trap restore EXIT
 OUT="${TRY_OUT:-/tmp/try_seeded.out}"; : > "$OUT"
 for ID in "$@"; do
   S=$(date +%s)
+  # the evidence file describes the unchanged tree: keep it aside while the check runs against the change
+  EV=/verif/evidence/$ID.json; KEEP=$(mktemp); [ -f "$EV" ] && cp "$EV" "$KEEP"
   (cd /verif && VERIF_SEED="${VERIF_SEED:-1}" ./check "$ID" "$TIER") > "$OUT.$ID" 2>&1; RC=$?
+  if [ -s "$KEEP" ]; then cp "$KEEP" "$EV"; else rm -f "$EV"; fi; rm -f "$KEEP"
   E=$(date +%s)
   SIGS=$(grep -c '^VIOLATION' "$OUT.$ID")
   FIRST=$(grep -A1 '^VIOLATION' "$OUT.$ID" | sed -n 2p | cut -c1-220)
